@@ -636,6 +636,7 @@ pub fn corpus_json_programs(max_bytes: usize) -> Vec<Rc<Prog>> {
                 let mut p = Prog::from_json(&format!("corpus:{name}"), &text);
                 if let Ok(src) = std::fs::read_to_string(&_src) {
                     p.functions = crate::prog::functions_of_source(&src);
+                    p.plain_knots = crate::prog::plain_knots_of_source(&src);
                 }
                 v.push(Rc::new(p));
             }
